@@ -20,8 +20,8 @@ func init() {
 		Rule: "well-formed generated streams (≥3 packets) demultiplexed under read schedules (every fixed chunk size 1..400 in thorough / a boundary set in quick, random sizes, one cut at every offset of the " +
 			"first 400 bytes, 1-byte reads, last bytes delivered together with io.EOF, reads returning (0, nil)) plus a read-only reader handed to a second Demuxer right after a call that returned a PAT/PMT, x reader kinds {seekable, bufio, plain} x {explicit, auto-detected} x packet sizes 188+k, each compared with the baseline (explicit 188, seekable, full reads); " +
 			"distinct = hash of (stream, configuration); non-trivial = the tap observed at least one short read or a non-baseline reader/size configuration",
-		Assumptions: []string{"auto-detection inputs respect the detector's documented assumption: first byte is a sync byte and no 0x47 among the bytes 188..188+k-1 / the k extra bytes",
-			"bufio.Reader sized ≥ 193 bytes when the packet size is auto-detected (the detector peeks 193 bytes); any size with an explicit packet size", "plain reader + auto-detection: the peeked packets are consumed by design, so the packet list must be a suffix of the baseline and independent of chunking"},
+		Assumptions: []string{"auto-detection inputs respect the detector's documented assumption (\"bounded by 2 sync bytes\"): first byte is a sync byte and no 0x47 among the bytes 188..188+k-1 of the first packet / its k extra bytes — no detector that looks at a finite window can tell such a byte from the next sync byte",
+			"bufio.Reader of any buffer size (16 bytes and up), with explicit and with detected packet size", "plain reader + auto-detection: the peeked packets are consumed by design, so the packet list must be a suffix of the baseline and independent of chunking"},
 		Shards: 32,
 		Run:    runC08,
 		Guards: func(m *mon.Merged, tier string) []string {
